@@ -582,6 +582,8 @@ class Verifier:
                 return py_eq_identity(a, b)
             if ta == BOOL and tb == BOOL:
                 return py_eq(a, b)
+            if ta == INT and tb == INT:
+                return py_eq(a, b)      # enum singletons modelled as small integers
         if isinstance(a, MCls) and isinstance(b, MCls):
             return z3.BoolVal(a.name == b.name)
         raise Unsupported('`is` between %r and %r' % (a, b))
@@ -909,6 +911,24 @@ class Verifier:
             st.assume(z3.Length(r.z) == n)
             st.assume(z3.ForAll([i], z3.Implies(z3.And(i >= 0, i < n), r.z[i] == pack(elt, t))))
             return r
+        if isinstance(node.elt, ast.Name) and isinstance(g.target, ast.Name) and node.elt.id == g.target.id:
+            # [x for x in seq if cond(x)]: assumed facts (sound for the real filter): membership
+            # characterisation and length bound; order/multiplicity are not asserted
+            r = fresh(SeqT(elem_t), 'filter')
+            xv = z3.Const(fresh_name('fx'), sort_of(elem_t))
+            sub2 = st.fork()
+            self.spec_mode += 1
+            try:
+                self.bind_target(g.target, SV(elem_t, xv), sub2, node)
+                cx = z3.BoolVal(True)
+                for f in g.ifs:
+                    cx = z3.And(cx, truthy(self.ev(f, sub2)))
+            finally:
+                self.spec_mode -= 1
+            st.assume(z3.ForAll([xv], z3.Contains(r.z, z3.Unit(xv)) ==
+                                z3.And(z3.Contains(it.z, z3.Unit(xv)), cx)))
+            st.assume(z3.Length(r.z) <= n)
+            return r
         raise Unsupported('filter comprehension over unbounded sequence (use a loop contract or SB)')
 
     def iter_items(self, it, st, node):
@@ -1029,6 +1049,19 @@ class Verifier:
     def st_Import(self, s, st):
         raise Unsupported('import inside function')
 
+    def st_ImportFrom(self, s, st):
+        # a local `from m import Name`: the names are classes/functions of the repository; they are
+        # bound to what the contract says they are, else to an opaque class of that name
+        for a in s.names:
+            nm = a.asname or a.name
+            if nm in self.c.names:
+                st.env[nm] = self.wrap_name(nm, self.c.names[nm])
+            elif nm in self.reg.names:
+                st.env[nm] = self.wrap_name(nm, self.reg.names[nm])
+            else:
+                st.env[nm] = MCls(a.name)
+        return [Outcome(NORMAL, st)]
+
     def st_Expr(self, s, st):
         v = s.value
         if isinstance(v, ast.Constant):
@@ -1139,6 +1172,7 @@ class Verifier:
     def st_Assert(self, s, st):
         c = truthy(self.ev(s.test, st))
         self.may_raise(st, c, 'AssertionError', 'assert', s)
+        self.narrow(s.test, st, True)
         return [Outcome(NORMAL, st)]
 
     def st_Delete(self, s, st):
